@@ -462,4 +462,81 @@ theorem flipGo_flipGo (axes : Option (List Int)) (k0 : Nat) (src d : List Nat) (
 theorem flipInAxis_some (ax : List Int) (k : Nat) : flipInAxis (some ax) k = true ↔ (k : Int) ∈ ax := by
   simp [flipInAxis]
 
+/-! ### expand_dims -/
+/-- SPEC side of expand_dims: delete the positions `i, i+1, …` of `out` that are listed in the axes -/
+def dropAxes (inAx : Nat → Bool) : Nat → List Nat → List Nat
+  | _, [] => []
+  | i, x :: xs => if inAx i then dropAxes inAx (i+1) xs else x :: dropAxes inAx (i+1) xs
+
+theorem expandGo_spec (nax : List Nat) (k i : Nat) (rest : List Nat)
+    (h : rest.length = ((List.range' i k).filter (fun j => !nax.contains j)).length) :
+    ∃ out, expandGo nax k i rest = some out ∧ out.length = k ∧ dropAxes (fun j => nax.contains j) i out = rest ∧
+      (∀ (j x : Nat), out[j]? = some x → nax.contains (i + j) = true → x = 1) ∧ prod out = prod rest := by
+  induction k generalizing i rest with
+  | zero =>
+    have : rest = [] := by simpa using h
+    subst this
+    exact ⟨[], rfl, rfl, rfl, by simp, rfl⟩
+  | succ k ih =>
+    rw [List.range'_succ] at h
+    cases hc : nax.contains i with
+    | true =>
+      rw [List.filter_cons_of_neg (by simp only [hc]; decide)] at h
+      obtain ⟨out, h1, h2, h3, h4, h5⟩ := ih (i+1) rest h
+      refine ⟨1 :: out, ?_, by simp only [List.length_cons, h2], ?_, ?_, ?_⟩
+      · simp only [expandGo, hc, if_true, h1, Option.map_some]
+      · simp only [dropAxes, hc, if_true, h3]
+      · intro j x hj hin
+        cases j with
+        | zero => simp only [List.getElem?_cons_zero, Option.some.injEq] at hj; exact hj.symm
+        | succ j =>
+          simp only [List.getElem?_cons_succ] at hj
+          have e : i + 1 + j = i + (j + 1) := by omega
+          exact h4 j x hj (by rw [e]; exact hin)
+      · simp only [prod, h5, Nat.one_mul]
+    | false =>
+      rw [List.filter_cons_of_pos (by simp only [hc]; decide)] at h
+      cases rest with
+      | nil => simp at h
+      | cons s rest' =>
+        simp only [List.length_cons, Nat.add_right_cancel_iff] at h
+        obtain ⟨out, h1, h2, h3, h4, h5⟩ := ih (i+1) rest' h
+        refine ⟨s :: out, ?_, by simp only [List.length_cons, h2], ?_, ?_, ?_⟩
+        · simp only [expandGo, hc, h1, Option.map_some]; rfl
+        · simp only [dropAxes, hc, h3]; rfl
+        · intro j x hj hin
+          cases j with
+          | zero => rw [Nat.add_zero, hc] at hin; exact absurd hin (by decide)
+          | succ j =>
+            simp only [List.getElem?_cons_succ] at hj
+            have e : i + 1 + j = i + (j + 1) := by omega
+            exact h4 j x hj (by rw [e]; exact hin)
+        · simp only [prod, h5]
+
+theorem count_free (l nax : List Nat) (hl : l.Nodup) (hnd : nax.Nodup) (hsub : ∀ a ∈ nax, a ∈ l) :
+    (l.filter (fun j => !nax.contains j)).length + nax.length = l.length := by
+  induction nax generalizing l with
+  | nil => simp
+  | cons a nax ih =>
+    have hnd' := List.nodup_cons.1 hnd
+    have hal : a ∈ l := hsub a (by simp)
+    have hsub' : ∀ b ∈ nax, b ∈ l.erase a := by
+      intro b hb
+      have hne : b ≠ a := by rintro rfl; exact hnd'.1 hb
+      exact (List.mem_erase_of_ne hne).2 (hsub b (by simp [hb]))
+    have h1 := ih (l.erase a) (hl.erase a) hnd'.2 hsub'
+    rw [List.length_erase_of_mem hal, hl.erase_eq_filter a, List.filter_filter] at h1
+    have hf : (l.filter (fun j => !(a :: nax).contains j)) = l.filter (fun j => (!nax.contains j) && (j != a)) := by
+      apply List.filter_congr
+      intro x _
+      by_cases hxa : x = a
+      · subst hxa; simp
+      · have h1 : (x != a) = true := by simp [hxa]
+        have h2 : (x == a) = false := by simp [hxa]
+        simp only [List.contains_cons, h1, h2, Bool.and_true, Bool.false_or]
+    rw [hf]
+    have : 0 < l.length := List.length_pos_of_mem hal
+    simp only [List.length_cons]
+    omega
+
 end NmVerif
